@@ -47,7 +47,7 @@ let run (c : string) (obs : string) : string * string * string =
            | "s", [ab; t] -> fs0 := m_put !fs0 p (NSym (ab = "1", comps t))
            | _ -> ())
       | ["e"; t; name; mode; payload; ab; target] ->
-        let ty = (match t with "r" | "p" | "k" | "v" -> TReg | "d" -> TDir | "s" -> TSym | _ -> TLink) in
+        let ty = (match t with "r" | "p" | "k" | "v" -> TReg | "d" -> TDir | "s" -> TSym | "q" -> TIgn | _ -> TLink) in
         if not (kind = "zip" && t = "l") then
           entries := m_mk_entry (comps name) ty (ab = "1") (if target = "-" then [] else comps target) (nat_of_int (int_of_string payload)) (nat_of_int (int_of_string ("0o" ^ mode))) :: !entries
       | _ -> ()) rest;
